@@ -31,6 +31,7 @@ LEVEL_TEXT = (
     "assignment chains) are written and read as well. Sessions: two round trips in one process under related file "
     "names (same path, same stem elsewhere, stems differing in punctuation or case)."
     " Also: rate laws in several signature variants, comparison chains whose branches differ at the boundary, exactly-zero coefficients, and components named like the importer's or the emitter's own helpers."
+    ' Also: identifier variant with non-ASCII letters; laws that call members of a user namespace named like library functions (must be refused).'
 )
 LEVEL_NOTE = "trusted: libsbml and the third-party pysbml parser; helper components added by the importer (compartment, <species>_amount) are ignored; only the original's names are compared"
 RULE = (
